@@ -5,6 +5,7 @@ import (
 	"io/fs"
 	"math/rand/v2"
 	"strings"
+	"syscall"
 
 	"github.com/avfs/avfs"
 	"github.com/avfs/avfs/idm/memidm"
@@ -288,6 +289,98 @@ func c11History(c *rt.Ctx, h int) {
 	c.Rep.Sample(map[string]any{"dir": dir, "nested": nested, "last_calls": hist[max(0, len(hist)-6):]}, 3)
 }
 
+// c11Detached: a view whose root directory is removed together with one of its ancestors (RemoveAll of the ancestor
+// through the parent, through a view of an enclosing directory, or of the view's root itself). What the view shows
+// afterwards is what the parent shows at the prefixed paths: nothing. Every probe through the view must answer as the
+// twin parent does for the prefixed path, and the two parents' trees stay equal (nothing can be created in a
+// directory that is no longer in the tree).
+func c11Detached(c *rt.Ctx, h int) {
+	r := c.Rand(fmt.Sprintf("c11-det-%d", h))
+	P, _ := newMemWithUsers()
+	Q, _ := newMemWithUsers()
+	for _, x := range []avfs.VFS{P, Q} {
+		_ = x.MkdirAll("/w/a/b/c/d", 0o755)
+		_ = x.WriteFile("/w/a/b/f", []byte("f"), 0o644)
+		_ = x.WriteFile("/w/a/b/c/g", []byte("g"), 0o644)
+		_ = x.MkdirAll("/w/k", 0o755)
+	}
+	dir := []string{"/w/a/b", "/w/a/b/c", "/w/a", "/w/a/b/c/d"}[r.IntN(4)]
+	V, err := P.Sub(dir)
+	if err != nil {
+		return
+	}
+	if r.IntN(2) == 0 {
+		_ = V.Chdir("/") // a view that has been used before
+		_, _ = V.ReadDir("/")
+	}
+	// an ancestor of the view's root (or the root itself) goes away
+	ancestors := []string{"/w"}
+	for _, d := range []string{"/w/a", "/w/a/b", "/w/a/b/c", "/w/a/b/c/d"} {
+		if strings.HasPrefix(dir+"/", d+"/") {
+			ancestors = append(ancestors, d)
+		}
+	}
+	anc := ancestors[r.IntN(len(ancestors))]
+	how := r.IntN(3)
+	what := ""
+	switch how {
+	case 0:
+		what = fmt.Sprintf("parent.RemoveAll(%q)", anc)
+		_ = P.RemoveAll(anc)
+		_ = Q.RemoveAll(anc)
+	case 1:
+		// through a view of the directory above
+		up := P.Dir(anc)
+		what = fmt.Sprintf("Sub(%q).RemoveAll(%q)", up, "/"+P.Base(anc))
+		for _, x := range []avfs.VFS{P, Q} {
+			if e, eerr := x.Sub(up); eerr == nil {
+				_ = e.RemoveAll("/" + x.Base(anc))
+			}
+		}
+	default:
+		what = fmt.Sprintf("parent.RemoveAll(%q) of the content, then Remove", anc)
+		for _, x := range []avfs.VFS{P, Q} {
+			es, _ := x.ReadDir(anc)
+			for _, e := range es {
+				_ = x.RemoveAll(x.Join(anc, e.Name()))
+			}
+			_ = x.Remove(anc)
+		}
+	}
+	hist := []string{fmt.Sprintf("Sub(%q)", dir), what}
+	replay := func() any { return map[string]any{"dir": dir, "history": hist} }
+	env, qenv := fsx.NewEnv(V), fsx.NewEnv(Q)
+	for _, po := range []fsx.Op{{K: "Stat", P: "/"}, {K: "ReadDir", P: "/"}, {K: "Lstat", P: "/f"}, {K: "Mkdir", P: "/n", Perm: 0o755}, {K: "WriteFile", P: "/nf", Data: "x", Perm: 0o644}, {K: "ReadFile", P: "/nf"},
+		{K: "Chdir", P: "/"}, {K: "OpenWriteClose", P: "/o", Flag: syscall.O_WRONLY | syscall.O_CREAT, Perm: 0o644, Data: "o"}, {K: "ReadDir", P: "/"}, {K: "Symlink", P: "f", Q: "/l"}, {K: "Rename", P: "/f", Q: "/f2"}} {
+		qo := po
+		qo.P = Q.Join(dir, po.P)
+		if po.K == "Rename" {
+			qo.Q = Q.Join(dir, po.Q)
+		}
+		if po.K == "Symlink" {
+			qo.P, qo.Q = po.P, Q.Join(dir, po.Q)
+		}
+		a, b := env.Exec(po), qenv.Exec(qo)
+		if po.K == "Chdir" {
+			_ = Q.Chdir("/")
+		}
+		hist = append(hist, fmt.Sprintf("view: %s -> %s", po, a.Err))
+		c.Rep.Case(fmt.Sprintf("view-of-removed-directory|%s|%s", po.K, a.Err), true)
+		if fatalRes(a) || fatalRes(b) {
+			return // C07's business
+		}
+		if (a.Err == "ok") != (b.Err == "ok") {
+			c.Disagree(fmt.Sprintf("view-of-removed-directory|%s|view=%s|parent=%s", po.K, a.Err, b.Err), fmt.Sprintf("Sub(%q), then %s: %s returns %s through the view but %s returns %s on the parent", dir, what, po, a, qo, b), replay())
+			return
+		}
+	}
+	if sp, sq := fsx.Snap(P, "/", fsx.SnapOpts{}), fsx.Snap(Q, "/", fsx.SnapOpts{}); sp.String() != sq.String() {
+		c.Disagree("view-of-removed-directory|tree-differs-from-twin", fmt.Sprintf("Sub(%q), then %s: after the calls through the view the parent's tree differs from the twin's: %v", dir, what, fsx.Diff(sp, sq, false, 6)), replay())
+		return
+	}
+	c.Rep.Count("detached_view_scenarios", 1)
+}
+
 func mustWd(v avfs.VFS) string {
 	d, _ := v.Getwd()
 	return d
@@ -307,6 +400,11 @@ func init() {
 			for h := 0; h < c.Pick(1200, 40000); h++ {
 				if h%c.NShards == c.Shard {
 					c11History(c, h)
+				}
+			}
+			for h := 0; h < c.Pick(800, 16000); h++ {
+				if h%c.NShards == c.Shard {
+					c11Detached(c, h)
 				}
 			}
 		},
